@@ -7,7 +7,8 @@
      lfs_record.go: lfsEncodeRecords, lfsEncodeRecord, lfsAppendVarint/Varlong/VarintBytes/
        VarintString, lfsVarint (lib/RecVarint.v);
      lfs.go: resolveChecksumAlg (+ lfs.NormalizeChecksumAlg on ASCII input);
-     lfs_s3.go: s3Uploader.Upload (PutObject branch, payload <= chunk size) and DeleteObject.
+     lfs_s3.go: s3Uploader.Upload (PutObject, and multipartUpload abstracted to "stores the whole
+       payload"; the harness runs it over a part-assembling S3 fake) and DeleteObject.
    External code = Section variables: kmsg Record.ReadFrom ([decode_rec]), kgo (de)compressors,
    crc32 Castagnoli, the digest functions, lfs.EncodeEnvelope (JSON).  kmsg RecordBatch
    AppendTo/ReadFrom (fixed-width big-endian layout) is written out ([enc_batch]/[dec_batch]).
@@ -255,7 +256,8 @@ Section Ext.
         | (key, created) :: sup' =>
           let '(fail, faults') := match u_faults st with [] => (false, []) | f :: fs => (f, fs) end in
           let st1 := mkUst (u_store st) sup' faults' (u_bytes st) (u_orphans st) in
-          if c_chunk cfg <? zlen payload then Err 90 st1 else
+          (* s3Uploader.Upload: PutObject up to the chunk size, multipartUpload above it (chunks of
+             c_chunk bytes, the last one short); either way the object is the whole payload *)
           if fail then Err 4 st1 else
           let st2 := mkUst ((key, payload) :: u_store st) sup' faults' (u_bytes st) (u_orphans st) in
           let sha := hashf 0 payload in
